@@ -19,6 +19,7 @@ Clause 2b (ONE committed height) — does NOT hold for the code as it is (known 
   `query_single_height_statement` is the full statement, `query_single_height_partial` proves it
   under the exact guard, `query_single_height_counterexample` refutes it on the corpus witness;
   likewise `query_header_statement` / `query_header_counterexample` for the block header.
+Direction of the mix: `version_never_ahead_of_snapshot`.
 Snapshot lifetime (refSnapshot): `no_use_after_close`, `snapshot_closed_iff_unreferenced`.
 -/
 namespace GnoVerif.C28
@@ -151,6 +152,15 @@ example : Reachable (finalOf okTrace) ∧ ∃ q ∈ (finalOf okTrace).qs.queries
     q.snap = some 1 ∧ (contentAt (finalOf okTrace).qs.snaps 1).map (·.latest) = some q.ver ∧
     q.reads.map (·.val) = [some 1, some 1] ∧ (finalOf okTrace).cons.db.latest = 2 :=
   ⟨⟨false, 705, false, okTrace, ok_run⟩, by decide⟩
+
+/-- The direction of the mix.  Because a commit publishes snapshot, commit id and header in THIS
+order, the version a latest-height query or a Simulate read is never newer than the snapshot it
+pins afterwards: the versioned stores are never ahead of the unversioned one, and such a query never
+fails with "no commit info for a future version". -/
+theorem version_never_ahead_of_snapshot (s : State) (hr : Reachable s) (q : Query) (hq : q ∈ s.qs.queries)
+    (hex : q.explicit = 0) (i : Nat) (sn : Snap) (hs : q.snap = some i) (hsn : s.qs.snaps[i]? = some sn) :
+    q.ver ≤ sn.content.latest :=
+  (reachable_oinv s hr).qs q hq hex i sn hs hsn
 
 /-! ### the block header a query sees -/
 
